@@ -4,7 +4,7 @@ import BarterModel.Model.Channels
 /-!
 C10C driver. One case uses one or more of the sections below (each section has its own state).
 
-channel            `chan` | `send H V` | `sink H V` | `clone H` | `droptx H` | `tostream` | `next` |
+channel            `chan` | `send H V` | `sink H V` | `nextwait H V` | `clone H` | `droptx H` | `tostream` | `next` |
                    `poll` | `droprx` | `wrap H` | `wrapoff` | `dsend V` | `disable`
                    (H = transmitter handle id, handle 0 is created by `chan`, `clone` creates the next id;
                    `wrap H` moves handle H into a `ChannelTxDroppable`)
@@ -74,6 +74,21 @@ def chStep (s : Option ChSt) (toks : List String) : Option (Option ChSt × List 
         let r := s.c.sinkSend v
         let s' := { s with c := r.1 }
         some (some s', ("sent " ++ if r.2 then "ok" else "err") :: s'.obs)
+      else if op == "nextwait" then
+        -- `next()` while another thread sends `v` a little later
+        if !s.c.rxAlive then none else
+        match s.c.iterNext with
+        | (c1, .spins) =>
+          -- the call cannot return before the send; then it returns what was sent
+          let c2 := (c1.send v).1
+          let r := c2.iterNext
+          let s' := { s with c := r.1 }
+          let l := match r.2 with | .some x => s!"next some {x}" | .none => "next none" | .spins => "next spins"
+          some (some s', "waited 1" :: l :: s'.obs)
+        | (c1, .some x) =>
+          let s' := { s with c := (c1.send v).1 }
+          some (some s', "waited 0" :: s!"next some {x}" :: s'.obs)
+        | (_, .none) => none
       else none
     | _, _ => none
   | ["clone", h], some s =>
@@ -153,10 +168,25 @@ def chSpecStep (s : Option ChSpec) (toks : List String) : Option (Option ChSpec 
   | [op, h, v], some s =>
     match h.toNat?, v.toNat? with
     | some h, some v =>
-      if !(s.handles.contains h) || !(op == "send" || op == "sink") then none else
-      let r := s.ch.send v
-      let s' := { s with ch := r.1 }
-      some (some s', ("sent " ++ if r.2 then "ok" else "err") :: s'.obs)
+      if !(s.handles.contains h) then none else
+      if op == "send" || op == "sink" then
+        let r := s.ch.send v
+        let s' := { s with ch := r.1 }
+        some (some s', ("sent " ++ if r.2 then "ok" else "err") :: s'.obs)
+      else if op == "nextwait" then
+        if !s.ch.listening then none else
+        match s.ch.read with
+        | (c1, .pending) =>
+          -- nothing to read yet: the reader has to wait for the item, and gets it
+          let r := (c1.send v).1.read
+          let s' := { s with ch := r.1 }
+          let l := match r.2 with | .item x => s!"next some {x}" | .done => "next none" | .pending => "next spins"
+          some (some s', "waited 1" :: l :: s'.obs)
+        | (c1, .item x) =>
+          let s' := { s with ch := (c1.send v).1 }
+          some (some s', "waited 0" :: s!"next some {x}" :: s'.obs)
+        | (_, .done) => none
+      else none
     | _, _ => none
   | ["clone", h], some s =>
     match h.toNat? with
@@ -556,7 +586,7 @@ structure St where
   pr : Option PrSt := none
   en : Option EnSt := none
 
-def chOps : List String := ["chan", "send", "sink", "clone", "droptx", "tostream", "next", "poll", "droprx", "wrap",
+def chOps : List String := ["chan", "send", "sink", "nextwait", "clone", "droptx", "tostream", "next", "poll", "droprx", "wrap",
   "wrapoff", "dsend", "disable"]
 def flOps : List String := ["flaky", "flakyoff", "fsend", "fdisable"]
 def mgOps : List String := ["merge", "ml", "mr", "mcl", "mcr", "mpoll", "mrun"]
